@@ -33,9 +33,9 @@ impl Pe {
 //@readonly p_dpdrho,residual_molar_helmholtz_energy,pressure,vapor
 //@flag tested
 //@flag distinct
-//@on then res < p_old * tol => tested = true;
-//@on? assign res => tested = false;
-//@on? assign p_old => tested = false;
+//@on then $res < $pold * tol => tested = true;
+//@on? assign $res => tested = false;
+//@on? assign $pold => tested = false;
 //@on else Self::is_trivial_solution(&vapor, &liquid) => distinct = true;
 //@on assign vapor => distinct = false;
 //@on assign liquid => distinct = false;
@@ -68,8 +68,8 @@ impl Pe {
 //@event init_pure_p free
 //@readonly p_dpdrho,residual_molar_helmholtz_energy,residual_molar_entropy,dp_dt,pressure,vapor,liquid,clone
 //@flag tested
-//@on then res < vle.vapor().temperature * tol => tested = true;
-//@on? assign res => tested = false;
+//@on then $res < vle.vapor().temperature * tol => tested = true;
+//@on? assign $res => tested = false;
 //@on assign vle => tested = false;
     ensures
         // Ok only from the converged path, both phases at one temperature
